@@ -59,7 +59,8 @@ TOLERANCES = {
     'sub_partitions': 'grid points and limits bitwise equal to the model',
     'variants': 'equivalent specifications: bitwise equal (==, equal hash) on '
                 'the dyadic lattice, else coordinates and limits within '
-                '(2n+8)*eps*scale and approx_equals(atol=1e-9*scale)',
+                '(4n+24)*eps*scale (two completions + two linspace calls) '
+                'and approx_equals(atol=1e-9*scale)',
 }
 ASSUMPTIONS = [
     'coordinates |x| <= ~100, cell sides >= 0.05, shapes 1..9, 1-4 initial '
@@ -182,7 +183,7 @@ def _partition(draw, max_ndim=4, small=False):
                 for _ in range(ndim)]
     pd = {'ctor': ctor, 'axes': axes}
     if ctor != 'rect':
-        styles = ['compact', 'compact', 'pairs']
+        styles = ['compact'] * 6 + ['pairs'] * 5
         if ndim == 1:
             styles.append('bare')
         pd['nob_style'] = draw(st.sampled_from(styles))
@@ -233,7 +234,7 @@ def _index_desc(draw):
                                  'single', 'list']))
     if form == 'list':
         return {'form': 'list',
-                'members': draw(st.lists(st.integers(0, 999), min_size=0,
+                'members': draw(st.lists(st.integers(0, 999), min_size=1,
                                          max_size=5)),
                 'mode': draw(st.sampled_from(['sorted', 'sorted', 'sorted',
                                               'raw'])),
@@ -340,8 +341,7 @@ def _vec_arg(vals, style):
 
 def _region(pd):
     flags = [tuple(a['nob']) for a in pd['axes']]
-    if pd.get('nob_style') == 'bare' and len(flags) == 1 and \
-            flags[0][0] != flags[0][1]:
+    if pd.get('nob_style') == 'bare' and len(flags) == 1:
         return 'nob=bare-pair-1d'
     return 'nob=' + str(pd.get('nob_style', 'none'))
 
@@ -706,7 +706,8 @@ def check_index(part, model, where, full=True):
     nprobe = 0
     for j in range(0, count, step):
         pt = [v[j % len(v)] for v in lists]
-        arg = pt[0] if ndim == 1 and j % 2 == 0 else list(pt)
+        arg = pt[0] if ndim == 1 else (list(pt) if j % 2 else
+                                       np.array(pt))
         for floating in (False, True):
             try:
                 got = part.index(arg, floating=floating)
@@ -1077,7 +1078,11 @@ def run_case(desc):
                 'C14|rejected-valid|{}|{}'.format(name, cls),
                 'step {}: {} on shape {} raised {}: {}; axes {}'.format(
                     k, shown, shape, type(raised).__name__, raised, before))
-        where = cls
+        where = name
+        if name == 'getitem':
+            where = 'getitem:' + ('list' if isinstance(idx, list) else
+                                  'stepped' if 'stepped' in cls else
+                                  'contiguous')
         try:
             check_invariants(result, new_model, where)
         except Violation as v:
@@ -1091,6 +1096,11 @@ def run_case(desc):
         nprobe += check_index(part, model, where, full=False)
         sweeps += 1
         strata.append('op:' + cls)
+        if ':' in cls:
+            strata.append('op:' + name)
+        if name == 'getitem':
+            for part_name in cls.split(':')[1].split('+'):
+                strata.append('op:getitem:' + part_name)
         if len(model) == 0:
             strata.append('reached:0-dim')
 
@@ -1145,9 +1155,9 @@ def _same(part, other, model, exact, label, base_kwargs):
     for i, ax in enumerate(model):
         sc = ref.scale(ax)
         sc_all = max(sc_all, sc)
-        tol = 0.0 if exact else (2 * ax.n + 8) * EPS * sc
+        tol = 0.0 if exact else (4 * ax.n + 24) * EPS * sc
         c = np.asarray(other.coord_vectors[i], dtype=float)
-        if np.any(np.abs(c - ax.c) > tol) or \
+        if c.shape != ax.c.shape or np.any(np.abs(c - ax.c) > tol) or \
                 abs(other.min_pt[i] - ax.lo) > tol or \
                 abs(other.max_pt[i] - ax.hi) > tol:
             raise Violation(
